@@ -92,7 +92,7 @@ Definition random_level (w : Z) : nat :=                                        
   Z.to_nat (Z.land (skip_maxLevel - bitlen (Z.land w skip_zoneMask)) skip_levelMask + 1).
 
 (* ---------------------------------------------------------------- the structure *)
-Inductive variant := Plain | WithCmp.     (* SkipList / SkipListWithCmp: lazyInit, Clear guard, RangeWithStart guard differ *)
+Inductive variant := Plain | WithCmp.     (* SkipList / SkipListWithCmp: lazyInit, Clear guard differ *)
 
 Record sk := mk { levels : list (list K); vals : list (K * V); level : nat; len : Z; has_rand : bool }.
 Definition zero : sk := mk [] [] 0 0 false.                          (* var s SkipList[K,V] *)
@@ -158,7 +158,7 @@ Definition pairs_after (s : sk) (cur : option K) : list (K * V) :=
   map (fun k => (k, vgetd k (vals s))) (nexts cur (keys0 s)).
 
 Definition range_start (vr : variant) (s : sk) (start : K) (f : nat -> K -> V -> bool) : option (list (K * V)) :=
-  if (match vr with Plain => (len s =? 0)%Z | WithCmp => false end) then Some [] else
+  if (len s =? 0)%Z then Some [] else               (* both variants: `if s.len == 0 { return }` (7fd87eb, 830a627) *)
   if negb (head_ok s) then None else
   let '(hit, us) := search start (levels s) (level s) None in
   if hit then
@@ -309,19 +309,17 @@ Fixpoint s_run (m : omap) (ops : list op) : list res :=
   end.
 
 (* Scope of the SkipListWithCmp statement: before the first Init the list has no comparator (and no random
-   source), so it is not written (Set/SetNx would dereference nil); RangeWithStart/RangeWithRange on the
-   untouched zero value index the nil head tower (finding F13) and are in scope only once Clear has run. *)
-Definition pre_init_ok (cleared : bool) (o : op) : bool :=
+   source), so it is not written (Set/SetNx would dereference nil).  Every other call is in scope. *)
+Definition pre_init_ok (o : op) : bool :=
   match o with
   | OSet _ _ | OSetNx _ _ => false
-  | ORangeStart _ _ | ORangeRange _ _ _ => cleared
   | _ => true
   end.
-Fixpoint cmp_scope (cleared : bool) (ops : list op) : bool :=
+Fixpoint cmp_scope (ops : list op) : bool :=
   match ops with
   | [] => true
   | OInit :: _ => true
-  | o :: t => pre_init_ok cleared o && cmp_scope (cleared || match o with OClear => true | _ => false end) t
+  | o :: t => pre_init_ok o && cmp_scope t
   end.
 
 (* results compared up to the shape observation (heights are not part of the ordered-map behaviour) *)
